@@ -1137,12 +1137,14 @@ def emit_tree(tree, labels):
     return f"(GIf {tree[1][0]} {emit_tree(tree[2], labels)} {emit_tree(tree[3], labels)})"
 
 
-def walk_tree(fn, loop, var):
+def walk_tree(fn, loop, var, width_only=False):
     """-> Coq gtree of one walk: the leaf a "_" reaches does the scalar thing, the leaf a list reaches the vector
-    thing (what those are is read by set_bound / convert / update above); every other leaf raises or does nothing."""
+    thing (what those are is read by set_bound / convert / update above); every other leaf raises or does nothing.
+    width_only: the walk uses nothing but the number of components (convert_to_parameters, the count of
+    __init__); there "_" may share the branch of a list (len("_") = 1 component)."""
     tree = type_tree(loop.body, var, fn)
     ls, lv = tree_leaf(tree, "KUnd", 1), tree_leaf(tree, "KList", 2)
-    if ls is lv:
+    if ls is lv and not width_only:
         fail(loop, f"{fn.name}: the string \"_\" and a list of placeholders take the same branch")
     if ls[1] or lv[1]:
         fail(loop, f"{fn.name}: refuses every scalar or every list of placeholders")
@@ -1154,7 +1156,7 @@ def type_tests(fd_tree):
     for name in ("_set_bound", "convert_to_parameters", "update_processor"):
         fn = find_func(fd_tree, name, CLS)
         _, loop, var = loop_over_variables(fn, body_no_doc(fn))
-        out[name] = walk_tree(fn, loop, var)
+        out[name] = walk_tree(fn, loop, var, width_only=name == "convert_to_parameters")
     # __init__: the count of parameters (a loop over self._variables, anywhere at top level of the body)
     init = find_func(fd_tree, "__init__", CLS)
     loops = [s for s in body_no_doc(init) if isinstance(s, ast.For) and is_attr(s.iter, "self", "_variables")]
@@ -1163,7 +1165,7 @@ def type_tests(fd_tree):
     if loops:
         if not is_name(loops[0].target) or loops[0].orelse:
             fail(loops[0], "__init__: the loop must be `for <var> in self._variables:`")
-        out["__init__"] = f"(Some {walk_tree(init, loops[0], loops[0].target.id)})"
+        out["__init__"] = f"(Some {walk_tree(init, loops[0], loops[0].target.id, width_only=True)})"
     else:
         out["__init__"] = "None"
     return out
